@@ -233,6 +233,37 @@ def gen(rng, tier):
             out.append(Case(line, kind=kind if ok else "fid-two-units", decides=ok, nontrivial=ok,
                             theorem="C06_L4_read_pmt_then_anything"))
         out.append(Case("pmt.read %s %d" % (hx(b"".join(k1[1:] + k2)), pid), kind="fid-join-midway", decides=False, nontrivial=False))
+    # ---- a long-lived caller: several PMT versions gathered one after the other through ONE accumulator
+    #      (PmtAccumulatorDoneFunc as predicate, Reset between tables), each decoded from acc.Bytes() and looked at again
+    #      after the accumulator has been reused (pmt.acchist; goexec/stable.go keeps every Bytes(), packet and descriptor
+    #      body handed out).  Table k+1 has the layout of table k with other descriptor bodies, or is unrelated.
+    import copy
+    for _ in range(30 if quick else 600):
+        base = L.rand_carrier(rng, crc="computed", allow_pre=False, small=rng.random() < 0.3,
+                              nstreams=rng.choice([1, 2, 3, None]))
+        tabs = [base]
+        for k in range(rng.choice([1, 1, 2, 3])):
+            if rng.random() < 0.75:
+                nxt = copy.deepcopy(tabs[-1])
+                sec = nxt["sec"]
+                sec["ver"] = (sec["ver"] + 1) % 32
+                sec["pdescs"] = [(t, L.rand_bytes(rng, len(b))) for t, b in sec["pdescs"]]
+                sec["streams"] = [(st, pid, [(t, L.rand_bytes(rng, len(b))) for t, b in ds]) for st, pid, ds in sec["streams"]]
+                sec["crc"] = b""
+            else:
+                nxt = L.rand_carrier(rng, crc="computed", allow_pre=False, small=rng.random() < 0.5)
+            tabs.append(nxt)
+        for c in tabs:
+            c["stuffing"] = rng.choice([0, 0, 3, (184 - c["unit_len"] % 184) % 184])
+        pays = L.ser_payloads(tabs)
+        if not all(L.check_carriers(tabs)):
+            continue
+        pid = rng.choice(L.PMT_PID_CHOICES)
+        req = [L.stream_line(pid, L.items_for(rng, p, L.rand_cuts(rng, len(p), set(), rng.choice(["full", "random", "one"])),
+                                              pid, interleave=False, tail_other=False), "ser.pkts") for p in pays]
+        pk = [r.replace("[", "[ ").replace("]", " ]") for r in vlib.run_model(req)]
+        out.append(Case("pmt.acchist [ %s ]" % " ".join(pk), kind="acc-reuse-%d" % len(tabs), theorem="C06_L2_parse_tables",
+                        note="PMTs decoded from acc.Bytes() stay what was on the wire while the accumulator gathers the next table"))
     if _SPEC_REQ:
         for (line, _), exp in zip(_SPEC_REQ, vlib.run_model([r for _, r in _SPEC_REQ])):
             EXPECT[line] = exp
